@@ -1,4 +1,6 @@
 """C13 -- Reduced density matrices reproduce energies and electron counts."""
+import math
+
 from tverif.engine import contract, snapshot
 
 RD = "tangelo/toolboxes/molecular_computation/rdms.py"
@@ -88,8 +90,12 @@ def vqe_structures(tier):
     for mol in ("H2",):
         for mapping, utd in (("jw", False), ("bk", True), ("scbk", True), ("jkmn", False)):
             sts.append({"mol": mol, "mapping": mapping, "utd": utd})
+    # open shell: the (N, spin) sector of the symmetry-conserving encoding differs from the closed-shell default
+    sts.append({"mol": "H4t", "mapping": "scbk", "utd": True})
     if tier != "quick":
         sts.append({"mol": "H4", "mapping": "jw", "utd": False})
+        sts.append({"mol": "H4+", "mapping": "scbk", "utd": True})
+        sts.append({"mol": "H4t", "mapping": "jw", "utd": False})
     return sts
 
 
@@ -110,7 +116,16 @@ def o3(h, st):
     e_rdm = h.call(ML, "SecondQuantizedMolecule.energy_from_rdms", mol, one, two)
     h.check("energy from the RDMs == variational energy", abs(e_rdm - e) < 1e-6, detail=f"{e_rdm} vs {e}")
     h.check("1-RDM Hermitian", float(np.max(np.abs(one - one.conj().T))) < 1e-8)
-    h.check("tr(1-RDM) == number of active electrons", abs(np.trace(one) - mol.n_active_electrons) < 1e-6, detail=str(np.trace(one)))
+    # "whenever the state conserves it": a Trotterised UCCSD whose generators are interleaved (sorted Pauli words) need not be a number eigenstate
+    from tangelo.toolboxes.ansatz_generator.fermionic_operators import number_operator
+    from tangelo.toolboxes.qubit_mappings.mapping_transform import fermion_to_qubit_mapping
+    nq = fermion_to_qubit_mapping(number_operator(mol.n_active_mos, up_then_down=False), s.qubit_mapping, mol.n_active_sos, mol.n_active_electrons, s.up_then_down, mol.spin)
+    n1 = s.backend.get_expectation_value(nq, s.ansatz.circuit)
+    n2 = s.backend.get_expectation_value(nq * nq, s.ansatz.circuit)
+    if abs(n2 - n1 * n1) < 1e-10 and abs(n1 - mol.n_active_electrons) < 1e-8:
+        h.check("tr(1-RDM) == number of active electrons", abs(np.trace(one) - mol.n_active_electrons) < 1e-6, detail=str(np.trace(one)))
+    else:
+        h.check("tr(1-RDM) == <N> of the (not number-conserving) state", abs(np.trace(one) - n1) < 1e-6, detail=f"{np.trace(one)} vs {n1}")
     h.done()
 
 
@@ -120,7 +135,7 @@ def _pname(term):
     return "E_" + ("_".join(f"{p}{i}" for i, p in term) if term else "I")
 
 
-@contract("C13", "O5.vqe.get_rdm.placement", level="S", structures=lambda tier: vqe_structures(tier)[:4] + [dict(x, sum_spin=False) for x in vqe_structures(tier)[:2]],
+@contract("C13", "O5.vqe.get_rdm.placement", level="S", structures=lambda tier: vqe_structures(tier)[:5] + [dict(x, sum_spin=False) for x in vqe_structures(tier)[:2]],
           targets=[(VQ, "VQESolver.get_rdm"), (ML, "SecondQuantizedMolecule.energy_from_rdms")], max_paths=4)
 def o5(h, st):
     """the compute backend OPAQUE - the expectation value of every Pauli word P measured on the ansatz state is an arbitrary symbol E_P -: the RDMs assembled by get_rdm,
@@ -156,7 +171,7 @@ def o5(h, st):
             return syms[nm]
     s.backend = Opaque()
     s.backend_options = {"noise_model": None}
-    th = np.array([0.11, -0.23][:s.ansatz.n_var_params])
+    th = np.array([0.11 * math.cos(1.7 * k + 0.3) + 0.02 for k in range(s.ansatz.n_var_params)])
     sum_spin = st.get("sum_spin", True)
     one, two = h.call(VQ, "VQESolver.get_rdm", s, th, False, sum_spin)
     h.check("every Pauli word measured in its own basis on the prepared state", not rec["bad"], detail=str(rec["bad"][:3]))
